@@ -392,23 +392,19 @@ func envPickler(x starlark.Value) (module, name string, args starlark.Tuple, err
 	}
 }
 
-// envPairs replaces what is not a value in a list of (name, value) pairs: the interpreter's
+// envPairs leaves out what is not a value in a list of (name, value) pairs: the interpreter's
 // marker for a keyword-only parameter without a default, and the missing value of a free
-// variable that is never assigned.
+// variable that is never assigned. Any stand-in value could also be written by the program
+// (a default of that very value is different code), so such a name has no pair at all.
 func envPairs(pairs starlark.Tuple) starlark.Tuple {
-	for i, p := range pairs {
-		pair, ok := p.(starlark.Tuple)
-		if !ok || len(pair) != 2 {
+	kept := make(starlark.Tuple, 0, len(pairs))
+	for _, p := range pairs {
+		if pair, ok := p.(starlark.Tuple); ok && len(pair) == 2 && (pair[1] == nil || pair[1].Type() == "mandatory") {
 			continue
 		}
-		switch {
-		case pair[1] == nil:
-			pairs[i] = starlark.Tuple{pair[0], starlark.String("<unassigned>")}
-		case pair[1].Type() == "mandatory":
-			pairs[i] = starlark.Tuple{pair[0], starlark.String("<mandatory>")}
-		}
+		kept = append(kept, p)
 	}
-	return pairs
+	return kept
 }
 
 // envUnpickler provides support for unpickling functions and modules.
